@@ -22,6 +22,9 @@ pub const DIST: &[KeyCode] = &[F13, F14, F15, F16, F17, F18, F19, F20];
 
 #[derive(Clone, Debug)]
 pub struct LayoutOpts {
+  /// unusual but legal output shapes: two non-modifier keys, a modifier after a key, three
+  /// trigger modifiers
+  pub weird: bool,
   pub absorbing: bool,
   pub norepeat: bool,
   pub special: bool,
@@ -40,7 +43,7 @@ pub fn gen_layout(rng: &mut Rng, o: &LayoutOpts) -> Layout {
   let n = 1 + rng.below(o.max_map);
   let mut mappings = vec![];
   for _ in 0..n {
-    let nm = [0, 0, 1, 1, 1, 2][rng.below(6)];
+    let nm = if o.weird && rng.chance(1, 6) { 3 } else { [0, 0, 1, 1, 1, 2][rng.below(6)] };
     let mut from: Vec<KeyCode> = vec![];
     while from.len() < nm + 1 { let k = rng.pick(trig); uniq_push(&mut from, k); }
     let mut to: Vec<KeyCode> = vec![];
@@ -53,6 +56,11 @@ pub fn gen_layout(rng: &mut Rng, o: &LayoutOpts) -> Layout {
         // sometimes output a key of the trigger (identity-like mappings are common in real layouts)
         let k = if rng.chance(1, 6) { *from.last().unwrap() } else { rng.pick(oact) };
         if is_mod(&k) { if to.is_empty() { to.push(k); } } else { to.push(k); }
+        if o.weird && rng.chance(1, 4) {
+          // a second non-modifier key, or a modifier listed after the key
+          let k2 = if rng.chance(1, 2) { rng.pick(oact) } else { rng.pick(omods) };
+          uniq_push(&mut to, k2);
+        }
       }
     }
     let repeat = if o.norepeat && rng.chance(1, 4) { Repeat::Disabled }
